@@ -359,3 +359,271 @@ func allFoundShape(f *chk.Fn, a, b int, onMissing bool) string {
 	}
 	return ""
 }
+
+// forallBefore decides that `site` is reached only if the guard phi held for
+// every element of the range loop rs. Three idioms are recognised:
+//
+//	exit:    an iteration can only continue with phi established, the loop has no
+//	         break, and the site lies behind the exhaustion of the loop;
+//	flag:    a boolean F is true whenever the loop starts, is never set to true in
+//	         the body, every iteration that ends (continue or break) without phi
+//	         has set F = false, and the site needs F;
+//	counter: an integer C is reset to 0 before the loop, incremented at most once
+//	         per iteration and only with phi established, and the site needs
+//	         C == len(X) for the ranged X.
+//
+// It returns "" when one idiom is established, else the reasons.
+func forallBefore(f *chk.Fn, g *chk.Graph, rs *ast.RangeStmt, phi chk.Guard, site chk.Site) string {
+	var why []string
+	// exit idiom
+	ends := g.LoopIteration(rs, phi)
+	exitOK := len(ends) > 0
+	for _, e := range ends {
+		if e.Break {
+			exitOK = false
+			why = append(why, "exit idiom: the loop can be left early at "+f.Prog.Rel(endPos(e, rs)))
+		} else if !e.OK {
+			exitOK = false
+			why = append(why, "exit idiom: an iteration can continue without the check (through "+f.Prog.Rel(endPos(e, rs))+")")
+		}
+	}
+	if exitOK {
+		if g.AfterLoop(site, rs) {
+			return ""
+		}
+		why = append(why, "exit idiom: the result does not lie behind the exhaustion of the loop")
+	}
+	// flag idiom
+	flags := map[types.Object]bool{}
+	ast.Inspect(rs.Body, func(n ast.Node) bool {
+		if as, ok := n.(*ast.AssignStmt); ok && len(as.Lhs) == 1 && len(as.Rhs) == 1 && as.Tok == token.ASSIGN && f.IsConstBool(as.Rhs[0], false) {
+			if id, ok := as.Lhs[0].(*ast.Ident); ok {
+				if o := f.ObjOf(id); o != nil {
+					flags[o] = true
+				}
+			}
+		}
+		return true
+	})
+	for fl := range flags {
+		isF := f.IsObj(fl)
+		setTrue := false
+		ast.Inspect(rs.Body, func(n ast.Node) bool {
+			if as, ok := n.(*ast.AssignStmt); ok {
+				for i, l := range as.Lhs {
+					if isF(l) && !(i < len(as.Rhs) && len(as.Lhs) == len(as.Rhs) && f.IsConstBool(as.Rhs[i], false)) {
+						setTrue = true
+					}
+				}
+			}
+			return true
+		})
+		if setTrue {
+			why = append(why, "flag idiom: "+fl.Name()+" can be set back inside the loop")
+			continue
+		}
+		if !g.LoopEntryDominated(rs, chk.GBool(true, isF)) {
+			why = append(why, "flag idiom: "+fl.Name()+" is not known to be true when the loop starts")
+			continue
+		}
+		ok := true
+		for _, e := range g.LoopIteration(rs, chk.GOr(phi, chk.GBool(false, isF))) {
+			if !e.OK {
+				ok = false
+				why = append(why, "flag idiom: an iteration can end without the check and without clearing "+fl.Name()+" (through "+f.Prog.Rel(endPos(e, rs))+")")
+			}
+		}
+		if !ok {
+			continue
+		}
+		if !g.Dominated(site, chk.GBool(true, isF)) {
+			why = append(why, "flag idiom: the result does not require "+fl.Name())
+			continue
+		}
+		return ""
+	}
+	// counter idiom
+	for _, inc := range g.Find(func(n ast.Node) bool {
+		s, ok := n.(*ast.IncDecStmt)
+		return ok && s.Tok == token.INC && chk.InBody(rs, n)
+	}) {
+		id, ok := inc.Node.(*ast.IncDecStmt).X.(*ast.Ident)
+		if !ok {
+			continue
+		}
+		cnt := f.ObjOf(id)
+		if cnt == nil {
+			continue
+		}
+		if !g.Dominated(inc, phi) {
+			why = append(why, "counter idiom: "+id.Name+" can be incremented without the check")
+			continue
+		}
+		// at most once per iteration: the increment cannot be reached again within the iteration
+		region := map[*cfgBlock]bool{}
+		loop, _, done := g.RangeBlocks(rs)
+		work := append([]*cfgBlock{}, inc.B.Succs...)
+		again := false
+		for len(work) > 0 {
+			b := work[len(work)-1]
+			work = work[:len(work)-1]
+			if b == loop || b == done || region[b] {
+				continue
+			}
+			region[b] = true
+			if b == inc.B {
+				again = true
+			}
+			work = append(work, b.Succs...)
+		}
+		if again {
+			why = append(why, "counter idiom: "+id.Name+" can be incremented more than once for one element")
+			continue
+		}
+		// reset before the loop, in the same enclosing loop body / function
+		reset := false
+		others := 0
+		ast.Inspect(f.Body, func(n ast.Node) bool {
+			switch s := n.(type) {
+			case *ast.AssignStmt:
+				for i, l := range s.Lhs {
+					if f.ObjOf(l) != cnt {
+						continue
+					}
+					if len(s.Lhs) == len(s.Rhs) && f.IsConstInt(s.Rhs[i], 0) && s.End() <= rs.Pos() && f.LoopOf(s) == f.LoopOf(rs) {
+						reset = true
+					} else {
+						others++
+					}
+				}
+			case *ast.ValueSpec:
+				for _, nm := range s.Names {
+					if f.Info().Defs[nm] == cnt && len(s.Values) == 0 && s.End() <= rs.Pos() && f.LoopOf(s) == f.LoopOf(rs) {
+						reset = true
+					}
+				}
+			case *ast.IncDecStmt:
+				if f.ObjOf(s.X) == cnt && n != inc.Node {
+					others++
+				}
+			}
+			return true
+		})
+		if !reset || others > 0 {
+			why = append(why, "counter idiom: "+id.Name+" is not reset to 0 right before the loop, or is modified elsewhere")
+			continue
+		}
+		same := func(e ast.Expr) bool { return f.SameExpr(e, rs.X) }
+		if !g.Dominated(site, g.GPat(true, "C == len(X)", chk.H("C", f.IsObj(cnt)), chk.H("X", same))) {
+			why = append(why, "counter idiom: the result does not require "+id.Name+" == len of the ranged list")
+			continue
+		}
+		return ""
+	}
+	if len(why) == 0 {
+		return "no for-all idiom (early exit, flag, counter) found"
+	}
+	return strings.Join(why, "; ")
+}
+
+func endPos(e chk.IterationEnd, rs *ast.RangeStmt) token.Pos {
+	if e.From != nil && len(e.From.Nodes) > 0 {
+		return e.From.Nodes[len(e.From.Nodes)-1].Pos()
+	}
+	return rs.Pos()
+}
+
+// flagTrueOnlyIf decides that the boolean local v can be true only when `just`
+// was established: every assignment gives it false, or true behind `just`, or an
+// expression that is true only with `just`. It returns the first unjustified site.
+func flagTrueOnlyIf(f *chk.Fn, g *chk.Graph, v types.Object, just chk.Guard) (bool, token.Pos) {
+	ok, bad := true, token.NoPos
+	n := 0
+	for _, s := range g.Find(func(nd ast.Node) bool {
+		switch st := nd.(type) {
+		case *ast.AssignStmt:
+			for _, l := range st.Lhs {
+				if id, isId := l.(*ast.Ident); isId && f.ObjOf(id) == v {
+					return true
+				}
+			}
+		case *ast.ValueSpec:
+			for _, nm := range st.Names {
+				if f.Info().Defs[nm] == v {
+					return true
+				}
+			}
+		}
+		return false
+	}) {
+		var rhs ast.Expr
+		switch st := s.Node.(type) {
+		case *ast.AssignStmt:
+			for i, l := range st.Lhs {
+				if id, isId := l.(*ast.Ident); isId && f.ObjOf(id) == v && len(st.Lhs) == len(st.Rhs) {
+					rhs = st.Rhs[i]
+				}
+			}
+			if rhs == nil {
+				ok, bad = false, st.Pos() // tuple assignment: unknown value
+				continue
+			}
+		case *ast.ValueSpec:
+			for i, nm := range st.Names {
+				if f.Info().Defs[nm] == v && i < len(st.Values) {
+					rhs = st.Values[i]
+				}
+			}
+			if rhs == nil {
+				n++
+				continue // zero value: false
+			}
+		}
+		n++
+		switch {
+		case f.IsConstBool(rhs, false):
+		case f.IsConstBool(rhs, true):
+			if !g.Dominated(s, just) {
+				ok, bad = false, s.Pos()
+			}
+		default:
+			if !g.DominatedAssuming(s, rhs, true, just) {
+				ok, bad = false, s.Pos()
+			}
+		}
+	}
+	if n == 0 {
+		return false, f.Pos()
+	}
+	return ok, bad
+}
+
+// boolLocalsRequiredAt lists the boolean locals that are known to be true at the site.
+func boolLocalsRequiredAt(f *chk.Fn, g *chk.Graph, s chk.Site) []types.Object {
+	var out []types.Object
+	seen := map[types.Object]bool{}
+	ast.Inspect(f.Body, func(n ast.Node) bool {
+		id, ok := n.(*ast.Ident)
+		if !ok {
+			return true
+		}
+		v, ok := f.ObjOf(id).(*types.Var)
+		if !ok || seen[v] || v.IsField() || v.Pkg() == nil || v.Parent() == v.Pkg().Scope() {
+			return true
+		}
+		if b, isB := v.Type().Underlying().(*types.Basic); !isB || b.Info()&types.IsBoolean == 0 {
+			return true
+		}
+		seen[v] = true
+		if g.Dominated(s, chk.GBool(true, f.IsObj(v))) {
+			out = append(out, v)
+		}
+		return true
+	})
+	return out
+}
+
+type posNode token.Pos
+
+func (p posNode) Pos() token.Pos { return token.Pos(p) }
+func (p posNode) End() token.Pos { return token.Pos(p) }
